@@ -121,4 +121,179 @@ def FnmatchIs (X : Ext) (fnm : String → String → Bool) : Prop :=
 /-- the constructor `PatternFilter(patterns)` stores the list -/
 def PatternFilterCtor (X : Ext) : Prop := ∀ pats : List String, X "PatternFilter" [strList pats] = .ok (pfVal pats)
 
+/-! ### generic loops: search ending the function with an arbitrary result; fold with early exit by an exception -/
+
+/-- a searching loop whose body ends the function, on the first element with `p a`, with whatever `res a` is (a
+    returned value, an exception, stuck) and otherwise goes on -/
+theorem forLoop_findRes {α : Type} (emb : α → Val) (p : α → Bool) (res : α → Res Val) (Inv : St → Prop)
+    (f : Val → St → Flow) (l : List α)
+    (hstep : ∀ a ∈ l, ∀ st, Inv st →
+      (p a = true → match res a with
+        | .ok v => ∃ st', f (emb a) st = .ret v st'
+        | .raise e => f (emb a) st = .raise e
+        | .stuck => f (emb a) st = .stuck) ∧
+      (p a = false → ∃ st', f (emb a) st = .next st' ∧ Inv st')) :
+    ∀ (st : St), Inv st →
+      match l.find? p with
+      | some a => (match res a with
+        | .ok v => ∃ st', forLoop f (l.map emb) st = .ret v st'
+        | .raise e => forLoop f (l.map emb) st = .raise e
+        | .stuck => forLoop f (l.map emb) st = .stuck)
+      | none => ∃ st', forLoop f (l.map emb) st = .next st' ∧ Inv st' := by
+  induction l with
+  | nil => intro st h; exact ⟨st, rfl, h⟩
+  | cons a r ih =>
+    intro st h
+    cases hp : p a with
+    | true =>
+      have h1 := (hstep a (List.mem_cons_self ..) st h).1 hp
+      simp only [List.find?_cons, hp, List.map_cons, forLoop]
+      cases hr : res a with
+      | ok v => rw [hr] at h1; obtain ⟨st1, h1⟩ := h1; exact ⟨st1, by rw [h1]⟩
+      | «raise» e => rw [hr] at h1; simp only [h1]
+      | stuck => rw [hr] at h1; simp only [h1]
+    | false =>
+      obtain ⟨st1, h1, hi1⟩ := (hstep a (List.mem_cons_self ..) st h).2 hp
+      have := ih (fun b hb => hstep b (List.mem_cons_of_mem _ hb)) st1 hi1
+      simp only [List.find?_cons, hp, List.map_cons, forLoop, h1]
+      exact this
+
+/-- `forLoop_findRes` in the form used by the theorems: `r` is whatever the loop evaluates to -/
+theorem forLoop_findRes_eq {α : Type} (emb : α → Val) (p : α → Bool) (res : α → Res Val) (Inv : St → Prop)
+    {f : Val → St → Flow} {l : List α} {st : St} {r : Flow} (hr : forLoop f (l.map emb) st = r) (hinv : Inv st)
+    (hstep : ∀ a ∈ l, ∀ st, Inv st →
+      (p a = true → match res a with
+        | .ok v => ∃ st', f (emb a) st = .ret v st'
+        | .raise e => f (emb a) st = .raise e
+        | .stuck => f (emb a) st = .stuck) ∧
+      (p a = false → ∃ st', f (emb a) st = .next st' ∧ Inv st')) :
+    match l.find? p with
+    | some a => (match res a with
+      | .ok v => ∃ st', r = .ret v st'
+      | .raise e => r = .raise e
+      | .stuck => r = .stuck)
+    | none => ∃ st', r = .next st' ∧ Inv st' := by
+  have := forLoop_findRes emb p res Inv f l hstep st hinv
+  rw [hr] at this
+  exact this
+
+/-- left fold that stops at the first `none` -/
+def foldOpt {α β : Type} (step : β → α → Option β) : List α → β → Option β
+  | [], b => some b
+  | a :: r, b =>
+    match step b a with
+    | some b' => foldOpt step r b'
+    | none => none
+
+/-- an accumulating loop whose body may raise `exc` (exactly when the model's step is `none`) -/
+theorem forLoop_foldOpt {α β : Type} (emb : α → Val) (step : β → α → Option β) (exc : String) (Inv : β → St → Prop)
+    (f : Val → St → Flow)
+    (hstep : ∀ a b st, Inv b st →
+      match step b a with
+      | some b' => ∃ st', f (emb a) st = .next st' ∧ Inv b' st'
+      | none => f (emb a) st = .raise exc) :
+    ∀ (l : List α) (b : β) (st : St), Inv b st →
+      match foldOpt step l b with
+      | some b' => ∃ st', forLoop f (l.map emb) st = .next st' ∧ Inv b' st'
+      | none => forLoop f (l.map emb) st = .raise exc := by
+  intro l
+  induction l with
+  | nil => intro b st h; exact ⟨st, rfl, h⟩
+  | cons a r ih =>
+    intro b st h
+    have h1 := hstep a b st h
+    simp only [foldOpt, List.map_cons, forLoop]
+    cases hs : step b a with
+    | none => rw [hs] at h1; simp only [h1]
+    | some b' =>
+      rw [hs] at h1
+      obtain ⟨st1, h1, hi1⟩ := h1
+      simp only [h1]
+      exact ih b' st1 hi1
+
+/-- `forLoop_foldOpt` in the form used by the theorems -/
+theorem forLoop_foldOpt_eq {α β : Type} (emb : α → Val) (step : β → α → Option β) (exc : String) (Inv : β → St → Prop)
+    {f : Val → St → Flow} {l : List α} {st : St} {r : Flow} (hr : forLoop f (l.map emb) st = r) (b : β)
+    (hinv : Inv b st)
+    (hstep : ∀ a b st, Inv b st →
+      match step b a with
+      | some b' => ∃ st', f (emb a) st = .next st' ∧ Inv b' st'
+      | none => f (emb a) st = .raise exc) :
+    match foldOpt step l b with
+    | some b' => ∃ st', r = .next st' ∧ Inv b' st'
+    | none => r = .raise exc := by
+  have := forLoop_foldOpt emb step exc Inv f hstep l b st hinv
+  rw [hr] at this
+  exact this
+
+/-! ### `--read-as`: `FileTypeMap` -/
+
+/-- one entry `(file_type_with_opts, PatternFilter(patterns))` of `FileTypeMap._mapping` -/
+def entryVal (e : String × List String) : Val := .list [.str e.1, pfVal e.2]
+
+/-- a `FileTypeMap` object -/
+def ftMapVal (m : Plumb.FileTypeMap) : Val := .record [("_mapping", .list (m.map entryVal))]
+
+/-- `list[str] | None` -/
+def optStrList : Option (List String) → Val
+  | some l => strList l
+  | none => .none
+
+theorem groupLoop_eq_foldOpt (split : String → Option (String × String)) (l : List String) (acc : Plumb.FileTypeMap) :
+    groupLoop split l acc = foldOpt (fun acc a => (split a).map fun rp => addPattern acc rp.1 rp.2) l acc := by
+  induction l generalizing acc with
+  | nil => rfl
+  | cons a r ih =>
+    simp only [groupLoop, foldOpt]
+    cases split a with
+    | none => rfl
+    | some rp => obtain ⟨x, y⟩ := rp; simp [ih]
+
+/-- `any(_t == r for _t in keys)` -/
+theorem anyM_keys (r : String) (acc : Plumb.FileTypeMap) (f : Val → Res Bool)
+    (hf : ∀ k : String, f (.str k) = .ok (k == r)) :
+    anyM f (acc.map fun e => Val.str e.1) = .ok (acc.any fun e => e.1 == r) := by
+  have := anyM_map_ok f (fun e : String × List String => Val.str e.1) (fun e => e.1 == r) (fun e => hf e.1) acc
+  exact this
+
+theorem addPattern_new (acc : Plumb.FileTypeMap) (r p : String) (h : (acc.any fun e => e.1 == r) = false) :
+    addPattern acc r p = acc ++ [(r, [p])] := by
+  induction acc with
+  | nil => rfl
+  | cons e t ih =>
+    obtain ⟨k, ps⟩ := e
+    simp only [List.any_cons, Bool.or_eq_false_iff] at h
+    have hk : ¬ k = r := by simpa using h.1
+    simp [addPattern, hk, ih h.2]
+
+/-- the `else` branch of the loop body of `_make_file_type_map`: `keys.index(r)` finds the entry, and storing its
+    pattern list with `p` appended is the model's `addPattern` -/
+theorem addPattern_sim (acc : Plumb.FileTypeMap) (r p : String) (h : (acc.any fun e => e.1 == r) = true) :
+    ∃ (i : Nat) (ps : List String),
+      indexFirst (.str r) (acc.map fun e => Val.str e.1) = .ok (some i) ∧ i < acc.length ∧
+      (acc.map fun e => strList e.2)[i]? = some (strList ps) ∧
+      (acc.map fun e => strList e.2).set i (strList (ps ++ [p])) = (addPattern acc r p).map (fun e => strList e.2) ∧
+      (addPattern acc r p).map (·.1) = acc.map (·.1) := by
+  induction acc with
+  | nil => simp at h
+  | cons e t ih =>
+    obtain ⟨k, ps⟩ := e
+    by_cases hk : k = r
+    · subst hk
+      exact ⟨0, ps, by simp [indexFirst, Val.eqv], by simp, by simp, by simp [addPattern], by simp [addPattern]⟩
+    · have hk' : (k == r) = false := by simpa using hk
+      simp only [List.any_cons, hk', Bool.false_or] at h
+      obtain ⟨i, qs, h1, h2, h3, h4, h5⟩ := ih h
+      refine ⟨i + 1, qs, ?_, by simp; omega, by simpa using h3, ?_, ?_⟩
+      · simp [indexFirst, Val.eqv, hk', h1, Res.map, Res.bind]
+      · simp [addPattern, hk, h4]
+      · simp [addPattern, hk, h5]
+
+theorem zipWith_entries (acc : Plumb.FileTypeMap) :
+    List.zipWith (fun a b => Val.list [a, b]) (acc.map fun e => Val.str e.1) (acc.map fun e => strList e.2)
+      = acc.map fun e => Val.list [.str e.1, strList e.2] := by
+  induction acc with
+  | nil => rfl
+  | cons e t ih => simp [ih]
+
 end Fc.PyLite.Cli
